@@ -75,6 +75,11 @@ PAR = {
     "C19": dict(models=["syncproto"], par=["pardag", "parfix", "parfb", "parpcycle", "parwrite", "parcancel", "parpanic"], monitors=("sync",), needs=["hk:sync_claim", "tstart"],
                 rule="all parallel families; every protocol event (hook H1) is applied to the SyncOps protocol state and its guard "
                      "and the protocol invariants are evaluated; non-trivial = threads ran and claimed keys"),
+    "C24": dict(models=["pagealloc"], par=["paralloc", "parstruct"], monitors=("par",), needs=["tstart", "new"],
+                rule="paralloc family: 2-4 threads on clones create inputs (30-140 each, crossing the 128-slot pages), intern overlapping "
+                     "ranges of immortal values outside queries and execute functions creating 150 tracked structs, over 3 rounds of "
+                     "fresh clones; parstruct: random struct programs requested concurrently; every id is checked for distinctness, page/slot "
+                     "order, single writer per page and read-back of its fields"),
     "C20": dict(models=["cancel"], par=["parwrite", "parwritefix"], monitors=("par",), needs=["wproc", "tstart", "dscf"],
                 rule="readers on clones while the main handle writes (input write / synthetic write) at a seeded point"),
     "C21": dict(models=["cancel"], par=["parcancel", "parcancelfix"], monitors=("par",), needs=["cancel_begin", "tstart"],
@@ -88,7 +93,7 @@ TIERS = {
 # families that need long histories
 NOPS_FACTOR = {"churn": 3, "reclaim": 2}
 # template families that need many samples
-JOBS_FACTOR = {"fixshape": 5, "fbshape": 3, "parmemo": 3}
+JOBS_FACTOR = {"fixshape": 5, "fbshape": 3, "parmemo": 3, "paralloc": 0.5}
 
 ASSUME_SEQ = [
     "TLC evaluates specs/core/CoreTrace.tla + Sem.tla faithfully; the harness interpreter logs what it does",
@@ -257,7 +262,7 @@ def run_par_families(binary, fams, tier, seed, wd, monitors=("par", "sync")):
     t = PAR_TIERS[tier]
     # thread-heavy runs: keep the number of concurrently running drivers small, TLC runs are single-threaded
     with ThreadPoolExecutor(max_workers=4) as ex:
-        futs = [ex.submit(parcheck.run_par_family, binary, fam, seed * 1000 + 500 + i, t["njobs"] * JOBS_FACTOR.get(fam, 1), wd, None, 3, monitors)
+        futs = [ex.submit(parcheck.run_par_family, binary, fam, seed * 1000 + 500 + i, max(10, int(t["njobs"] * JOBS_FACTOR.get(fam, 1))), wd, None, 3, monitors)
                 for i, fam in enumerate(fams)]
         return [f.result() for f in futs]
 
